@@ -393,7 +393,17 @@ def tests(sup, flag):
             for s in blk["stmts"]:
                 if s["k"] == "assign" and s["rv"]["k"] == "discr" and not s["rv"]["p"]["pr"]:
                     tr = trace(b, {"k": "copy", "p": s["rv"]["p"]})
-                    if tr.origin and tr.origin[0] == "call" and (fn_of(tr.origin[2]) or {}).get("def") == "std::mem::replace" and _reads_field(b, tr.origin[2]["args"][0], flag) and all(x[0] == "use" for x in tr.steps):
+                    rb = b
+                    if tr.origin and tr.origin[0] == "call" and (fn_of(tr.origin[2]) or {}).get("local") and all(x[0] == "use" for x in tr.steps):
+                        # `match self.claim() { .. }` with `fn claim(&mut self) -> Usage { mem::replace(&mut self.usage, Spent) }`:
+                        # the helper hands back the previous state
+                        from model import strace_deep
+                        dtr = strace_deep(sup, n, {"k": "copy", "p": s["rv"]["p"]})
+                        if dtr.origin and dtr.origin[0] == "call" and (fn_of(dtr.origin[2]) or {}).get("def") == "std::mem::replace" and all(x[0] in ("use", "enter_callee", "enter_caller") for x in dtr.steps):
+                            tr = dtr
+                            rb = sup.body_of((dtr.origin_node[0], 0))
+                            tr.steps = [x for x in tr.steps if x[0] == "use"]
+                    if tr.origin and tr.origin[0] == "call" and (fn_of(tr.origin[2]) or {}).get("def") == "std::mem::replace" and _reads_field(rb, tr.origin[2]["args"][0], flag) and all(x[0] == "use" for x in tr.steps):
                         e = b.crate.adts[flag.enum]
                         edges = {}
                         for v in e["variants"]:
@@ -401,7 +411,7 @@ def tests(sup, flag):
                             if ee:
                                 edges[flag.role(v["name"])] = (n, ee[1], (n[0], ee[2]))
                         if CLEAR in edges and SET in edges and not any(x["node"] == n for x in out):
-                            out.append({"node": n, "edges": edges, "how": "replace", "wrote": flag.role(_const_state(b, tr.origin[2]["args"][1], flag))})
+                            out.append({"node": n, "edges": edges, "how": "replace", "wrote": flag.role(_const_state(rb, tr.origin[2]["args"][1], flag))})
     return out
 
 
